@@ -435,6 +435,8 @@ fn check_lists(c: &ListCase, cx: &mut Ctx) -> R {
         }
         ensure!(matches!(raw.next(), Ok(None)), "c08/rng/raw-extra", "list {}", i);
         ensure!(matches!(raw.next(), Ok(None)), "c08/rng/raw-after-end", "list {}", i);
+        crate::std_iter_agrees!(ranges.raw_ranges(off, enc).map_err(|e| Failure { sig: "c08/rng/raw-open".into(), detail: format!("{e:?}") })?, |g: &gimli::RawRngListEntry<usize>| canon_raw_rng(g), "c08/rng/raw-std-iterator");
+        crate::std_iter_agrees!(ranges.ranges(off, enc, c.base & mask(a), &da, ab).map_err(|e| Failure { sig: "c08/rng/open".into(), detail: format!("{e:?}") })?, |r: &gimli::Range| format!("{:#x}..{:#x}", r.begin, r.end), "c08/rng/std-iterator");
         // cooked
         let want = resolve(l, c.base & mask(a), a, &c.addrs);
         let mut it = ranges.ranges(off, enc, c.base & mask(a), &da, ab).map_err(|e| Failure { sig: "c08/rng/open".into(), detail: format!("{e:?}") })?;
@@ -479,6 +481,8 @@ fn check_lists(c: &ListCase, cx: &mut Ctx) -> R {
         }
         ensure!(matches!(raw.next(), Ok(None)), "c08/loc/raw-extra", "list {}", i);
         ensure!(matches!(raw.next(), Ok(None)), "c08/loc/raw-after-end", "list {}", i);
+        crate::std_iter_agrees!(if dwo { locs.raw_locations_dwo(off, enc) } else { locs.raw_locations(off, enc) }.map_err(|e| Failure { sig: "c08/loc/raw-open".into(), detail: format!("{e:?}") })?, |g: &gimli::RawLocListEntry<Rdr>| canon_raw_loc(g), "c08/loc/raw-std-iterator");
+        crate::std_iter_agrees!(if dwo { locs.locations_dwo(off, enc, c.base & mask(a), &da, ab) } else { locs.locations(off, enc, c.base & mask(a), &da, ab) }.map_err(|e| Failure { sig: "c08/loc/open".into(), detail: format!("{e:?}") })?, |l: &gimli::LocationListEntry<Rdr>| format!("{:#x}..{:#x} {:02x?}", l.range.begin, l.range.end, l.data.0.slice()), "c08/loc/std-iterator");
         let want = resolve(l, c.base & mask(a), a, &c.addrs);
         let mut it = if dwo { locs.locations_dwo(off, enc, c.base & mask(a), &da, ab) } else { locs.locations(off, enc, c.base & mask(a), &da, ab) }.map_err(|e| Failure { sig: "c08/loc/open".into(), detail: format!("{e:?}") })?;
         let (wl, errs) = match &want {
@@ -651,6 +655,12 @@ fn check_dwarf_level(c: &ListCase, b: &BuiltLists, cx: &mut Ctx) -> R {
     if c.implicit_bases {
         cx.label("v5 dwo unit with implicit list bases");
     }
+    // everything below goes through a re-borrowed copy of the section set (`Dwarf::borrow`), which must be the same
+    // file: same sections, same kind of file
+    let dwarf_loaded = dwarf;
+    #[allow(deprecated)]
+    let dwarf = dwarf_loaded.borrow(|r| *r);
+    ensure_eq!(dwarf.file_type, dwarf_loaded.file_type, "c08/dwarf/borrow/file_type");
     let header = dwarf.units().next().map_err(|e| Failure { sig: "c08/dwarf/units".into(), detail: format!("{e:?}") })?.ok_or_else(|| Failure { sig: "c08/dwarf/no-unit".into(), detail: String::new() })?;
     let mut unit_r = dwarf.unit(header).map_err(|e| Failure { sig: "c08/dwarf/unit".into(), detail: format!("{e:?}") })?;
     ensure_eq!(unit_r.low_pc, unit_base, "c08/dwarf/unit-low_pc");
@@ -800,6 +810,81 @@ fn check_dwarf_level(c: &ListCase, b: &BuiltLists, cx: &mut Ctx) -> R {
         k += 1;
     }
     ensure_eq!(k, c.rng.len() + c.loc.len() + combos.len(), "c08/dwarf/children-seen");
+    // the same questions asked through `UnitRef` (the unit paired with its file) give the same answers
+    {
+        let ur = unit_r.unit_ref(&dwarf);
+        let rngs = |it: gimli::Result<Option<gimli::RngListIter<Rdr>>>| -> String {
+            match it {
+                Ok(Some(mut it)) => {
+                    let mut out = Vec::new();
+                    loop {
+                        match it.next() {
+                            Ok(Some(r)) => out.push(format!("{:#x}..{:#x}", r.begin, r.end)),
+                            Ok(None) => break,
+                            Err(e) => {
+                                out.push(format!("error {:?}", e));
+                                break;
+                            }
+                        }
+                    }
+                    format!("{:?}", out)
+                }
+                Ok(None) => "none".into(),
+                Err(e) => format!("error {:?}", e),
+            }
+        };
+        let locs = |it: gimli::Result<Option<gimli::LocListIter<Rdr>>>| -> String {
+            match it {
+                Ok(Some(mut it)) => {
+                    let mut out = Vec::new();
+                    loop {
+                        match it.next() {
+                            Ok(Some(l)) => out.push(format!("{:#x}..{:#x} {:02x?}", l.range.begin, l.range.end, l.data.0.slice())),
+                            Ok(None) => break,
+                            Err(e) => {
+                                out.push(format!("error {:?}", e));
+                                break;
+                            }
+                        }
+                    }
+                    format!("{:?}", out)
+                }
+                Ok(None) => "none".into(),
+                Err(e) => format!("error {:?}", e),
+            }
+        };
+        let rit = |it: gimli::Result<gimli::RangeIter<Rdr>>| -> String {
+            match it {
+                Ok(mut it) => {
+                    let (v, e) = collect_ranges(&mut it);
+                    format!("{:x?} err {}", v, e)
+                }
+                Err(e) => format!("error {:?}", e),
+            }
+        };
+        ensure_eq!(rit(ur.unit_ranges()), rit(dwarf.unit_ranges(&unit_r)), "c08/unit_ref/unit_ranges");
+        let mut cur = unit_r.entries();
+        let mut n = 0;
+        while let Ok(Some(entry)) = cur.next_dfs() {
+            ensure_eq!(rit(ur.die_ranges(entry)), rit(dwarf.die_ranges(&unit_r, entry)), "c08/unit_ref/die_ranges", "entry #{}", n);
+            for at in entry.attrs() {
+                let v = at.value();
+                ensure_eq!(rngs(ur.attr_ranges(v.clone())), rngs(dwarf.attr_ranges(&unit_r, v.clone())), "c08/unit_ref/attr_ranges", "entry #{} attribute {:#x}", n, at.name().0);
+                ensure_eq!(locs(ur.attr_locations(v.clone())), locs(dwarf.attr_locations(&unit_r, v.clone())), "c08/unit_ref/attr_locations", "entry #{} attribute {:#x}", n, at.name().0);
+                ensure_eq!(format!("{:?}", ur.attr_ranges_offset(v.clone())), format!("{:?}", dwarf.attr_ranges_offset(&unit_r, v.clone())), "c08/unit_ref/attr_ranges_offset", "entry #{}", n);
+                ensure_eq!(format!("{:?}", ur.attr_locations_offset(v.clone())), format!("{:?}", dwarf.attr_locations_offset(&unit_r, v.clone())), "c08/unit_ref/attr_locations_offset", "entry #{}", n);
+                ensure_eq!(format!("{:?}", ur.attr_address(v.clone())), format!("{:?}", dwarf.attr_address(&unit_r, v.clone())), "c08/unit_ref/attr_address", "entry #{}", n);
+                if let gimli::AttributeValue::RangeListsRef(o) = v {
+                    let o = dwarf.ranges_offset_from_raw(&unit_r, o);
+                    ensure_eq!(rngs(ur.ranges(o).map(Some)), rngs(dwarf.ranges(&unit_r, o).map(Some)), "c08/unit_ref/ranges", "entry #{}", n);
+                }
+                if let gimli::AttributeValue::LocationListsRef(o) = v {
+                    ensure_eq!(locs(ur.locations(o).map(Some)), locs(dwarf.locations(&unit_r, o).map(Some)), "c08/unit_ref/locations", "entry #{}", n);
+                }
+            }
+            n += 1;
+        }
+    }
     // ranges_offset_from_raw: base added only for pre-v5 units in a dwo
     for ft in [gimli::DwarfFileType::Main, gimli::DwarfFileType::Dwo] {
         let mut d2 = gimli::Dwarf::load(sect).map_err(|e| Failure { sig: "c08/dwarf/load".into(), detail: format!("{e:?}") })?;
